@@ -51,6 +51,8 @@ def jobs(tier):
             out.append(("create.%s.%s" % (which, shape), "job_create", dict(which=which, shape=shape, K=1, edits=0, mode="sizes")))
     for which in ("1", "2a", "3a") + (() if q else ("2c", "3c")):
         out.append(("create-unencodable.%s" % which, "job_create_unencodable", dict(which=which, unenc=True)))
+    for version in (1, 3):
+        out.append(("edit-swap.v%d" % version, "job_edit_swap", dict(version=version, swap=True)))
     for version in (2, 3):
         out.append(("edit-mixed-keys.v%d" % version, "job_edit_mixed", dict(version=version, mixed=True)))
     for shape in ("flat2", "nested3"):
@@ -352,6 +354,41 @@ def _mixed_base(version, conc=False):
     return {"announce": "http://t/a", "info": dict(sorted(info.items())), "piece layers": layers}
 
 
+SWAP_FIELDS = {"comment": ["unnamed", "cleared", "str"], "source": ["unnamed", "cleared", "str"],
+               "url-list": ["unnamed", "cleared", "list1"], "httpseeds": ["unnamed", "cleared", "list1"]}
+
+
+def job_edit_swap(E, version, swap=True, _mutants=None):
+    """One edit that may remove some fields and add others in the same dictionary (the number of keys can stay the
+    same): every presence pattern of comment / source / url-list / httpseeds in the base, every request over them."""
+    from symx.loader import ben_copy
+    force = {"announce": True, "private": False, "comment-top": False, "layers": True}
+    base = ew.base_meta(E, version, force)
+    fs = AFS()
+    fs.add_token(ew.MPATH, BenTok(ben_copy(base)))
+    w = World(fs, mutants=_mutants)
+    kinds = {f: opts[E.choice("e0.%s" % f, len(opts))] for f, opts in SWAP_FIELDS.items()}
+    req = ew.request(E, kinds, tag="e0")
+    for v in req.values():
+        for x in (v if isinstance(v, list) else [v]):
+            if isinstance(x, OStr):
+                x._nonempty = True
+    try:
+        w.mod("edit").edit_torrent(ew.MPATH, dict(req))
+    except Unsupported:
+        raise
+    except Exception as ex:  # noqa: BLE001
+        E.fail("C06.edit.no-exception", "%s: %s" % (type(ex).__name__, ex))
+        return
+    for d in w.dumps_log:
+        if d[0] == "dump":
+            check_canonical(E, d[1], "C06.edit")
+            check_structure(E, d[1], version, "C06.edit")
+    E.witnesses["edit adds a key"] = True
+    E.witnesses["edit removes a key"] = True
+    E.witnesses.setdefault("two piece-layer entries", True)
+
+
 def job_create_unencodable(E, which, unenc=True, _mutants=None):
     """A create that cannot be encoded (a value bencode has no representation for): whatever is at the output path
     afterwards is a complete metafile - the one that was there before, or nothing if there was none."""
@@ -556,6 +593,23 @@ def replay(params, model, notes, workdir, seed):
             if bad:
                 return bad
         return bad
+    if params.get("swap"):
+        from harness import c07 as _c07
+        version = params["version"]
+        base = _c07.conc_base(version, dict(model, **{"base.announce": 1, "base.private": 0, "base.layers": 1}))
+        mpath = os.path.join(workdir, "m.torrent")
+        with open(mpath, "wb") as f:
+            f.write(refconc.bencode(base))
+        req = {}
+        for f_, opts in SWAP_FIELDS.items():
+            v = _c07.conc_value(opts[int(model.get("e0.%s" % f_, 0))], f_, 1, "e0")
+            if v is not None:
+                req[f_] = v
+        try:
+            mods["torrentfile.edit"].edit_torrent(mpath, dict(req))
+        except Exception as ex:  # noqa: BLE001
+            return ["C06.edit.no-exception: %s" % ex]
+        return _strict(mpath, version)
     if params.get("mixed"):
         from harness import c07 as _c07
         version = params["version"]
